@@ -56,15 +56,45 @@ type target struct {
 	leaf func(c *engine.Chooser, scName string, cfg *scenarioCfg)
 }
 
+var (
+	bgvA  = map[string]*adapter[uint64]{}
+	ckksA = map[string]*adapter[complex128]{}
+)
+
 func bgvTarget(s circ.BGVSpec) target {
-	return target{name: s.String(), n: 1 << (s.LogN - 1), leaf: func(c *engine.Chooser, sc string, cfg *scenarioCfg) {
-		runLeaf(c, bgvAdapter(getBGV(c, s)), sc, cfg)
+	name := s.String()
+	return target{name: name, n: 1 << (s.LogN - 1), leaf: func(c *engine.Chooser, sc string, cfg *scenarioCfg) {
+		a, ok := bgvA[name]
+		if !ok {
+			a = bgvAdapter(getBGV(c, s))
+			bgvA[name] = a
+		}
+		runLeaf(c, a, sc, cfg)
 	}}
+}
+
+func getCKKSAdapter(c *engine.Chooser, s circ.CKKSSpec, logSlots int) *adapter[complex128] {
+	name := fmt.Sprintf("%s-slots%d", s.String(), 1<<logSlots)
+	a, ok := ckksA[name]
+	if !ok {
+		a = ckksAdapter(getCKKS(c, s), logSlots)
+		ckksA[name] = a
+	}
+	return a
+}
+
+func getBGVAdapter(c *engine.Chooser, s circ.BGVSpec) *adapter[uint64] {
+	a, ok := bgvA[s.String()]
+	if !ok {
+		a = bgvAdapter(getBGV(c, s))
+		bgvA[s.String()] = a
+	}
+	return a
 }
 
 func ckksTarget(s circ.CKKSSpec, logSlots int) target {
 	return target{name: fmt.Sprintf("%s-slots%d", s.String(), 1<<logSlots), n: 1 << logSlots, leaf: func(c *engine.Chooser, sc string, cfg *scenarioCfg) {
-		runLeaf(c, ckksAdapter(getCKKS(c, s), logSlots), sc, cfg)
+		runLeaf(c, getCKKSAdapter(c, s, logSlots), sc, cfg)
 	}}
 }
 
@@ -112,31 +142,47 @@ func scenarios(tier string) []engine.Scenario {
 				name := fmt.Sprintf("%s/%s/ratio%d", tg.name, family, ratio)
 				scs = append(scs, engine.Scenario{Name: name, Bound: bound, Fn: func(c *engine.Chooser) { tg.leaf(c, name, cfg) }})
 			}
-			// every subset of (-n,n) of each size, one scenario per size (similar cost per scenario)
+			// EVERY subset of (-n,n) of each size, one scenario per size (similar cost per scenario).
+			// Secondary axes (levels, scales, receiver, buffers, key level) under a deviation bound that
+			// shrinks as the family grows: the BSGS split depends on (set, ratio, n), not on them.
+			thorough := tier == "thorough"
+			coreEntries := []int{eEvaluateNew, eEvaluate, eMany2, eSeqNew2}
 			for size := 1; size <= maxSize; size++ {
-				bound := 2
-				if size >= 2 && tg.n >= 16 {
-					bound = 1
-				}
-				if size == 3 {
-					bound = 1
-				}
 				sets := subsetsOfSize(tg.n, size)
-				if size == 3 && tg.n >= 16 {
-					// 4495 sets: split in four scenarios
-					q := (len(sets) + 3) / 4
-					for part := 0; part < 4; part++ {
-						lo, hi := part*q, (part+1)*q
-						if hi > len(sets) {
-							hi = len(sets)
-						}
-						add(fmt.Sprintf("subsets%d.%d", size, part), toSets("sub", sets[lo:hi]), 0, []int{eEvaluateNew, eEvaluate, eMany2, eSeqNew2})
-					}
-					continue
+				bound, entries := 1, allEntries
+				switch {
+				case thorough && size <= 2 && tg.n <= 8:
+					bound = 2
+				case thorough && size == 1:
+					bound = 2
+				case !thorough && size == 2 && tg.n >= 16:
+					bound, entries = 0, coreEntries
+				case size == 3 && tg.n >= 16:
+					bound, entries = 0, coreEntries
 				}
-				add(fmt.Sprintf("subsets%d", size), toSets("sub", sets), bound, allEntries)
+				// large families are split so that scenarios have similar cost
+				parts := 1
+				if len(sets) > 1000 {
+					parts = 4
+				}
+				q := (len(sets) + parts - 1) / parts
+				for part := 0; part < parts; part++ {
+					lo, hi := part*q, (part+1)*q
+					if hi > len(sets) {
+						hi = len(sets)
+					}
+					fam := fmt.Sprintf("subsets%d", size)
+					if parts > 1 {
+						fam = fmt.Sprintf("subsets%d.%d", size, part)
+					}
+					add(fam, toSets("sub", sets[lo:hi]), bound, entries)
+				}
 			}
-			add("structured", structuredSets(tg.n), 2, allEntries)
+			if tier == "thorough" {
+				add("structured", structuredSets(tg.n), 2, allEntries)
+			} else {
+				add("structured", structuredSets(tg.n), 1, allEntries)
+			}
 			if tier == "thorough" && tg.n == 8 {
 				add("powerset", toSets("pow", powerSetNonNeg(8)), 1, allEntries)
 			}
@@ -171,7 +217,7 @@ func main() {
 				"ltLevelQ=max", "ltLevelQ=max-1", "ltLevelQ=lowest", "levelP=max", "levelP=max-1",
 				"ctLevel=above-lt", "ctLevel=equal-lt", "ctLevel=below-lt", "ltScale=true", "ltScale=false", "ctScale=true", "ctScale=false",
 				"evaluator=fresh", "evaluator=reused", "nDiags=1", "nDiags=2", "nDiags=all", "checked=sequential", "checked=many1", "checked=many2", "checked=many3",
-				"N1=1", "N1=2", "N1=4", "N1=8", "perm=all-of-4", "perm=family-8", "special=out-of-range", "special=empty"}
+				"N1=1", "N1=2", "N1=4", "N1=8", "perm=all-of-4", "perm=family-8", "special=out-of-range-index", "special=empty-diagonal-set", "class=naive-only-diagonal-0", "class=EvaluateMany-after-giant-step", "many=no-earlier-giant-step"}
 			for _, r := range ratioCycle {
 				e = append(e, fmt.Sprintf("ratio=%d", r))
 			}
